@@ -654,9 +654,8 @@ pub fn uninstall_clock() {
     clock::set_overheads(None);
 }
 
-pub fn build_divan(cfg: &RunCfg) -> Result<Divan, String> {
-    let mut d = Divan::default();
-    let o = &cfg.options;
+/// Applies `o` through the public builder methods.
+pub fn apply_builder(mut d: Divan, o: &OptSpec) -> Divan {
     if let Some(v) = o.sample_count {
         d = d.sample_count(v);
     }
@@ -687,6 +686,11 @@ pub fn build_divan(cfg: &RunCfg) -> Result<Divan, String> {
     if let Some(v) = o.skip_ext_time {
         d = d.skip_ext_time(v);
     }
+    d
+}
+
+pub fn build_divan(cfg: &RunCfg) -> Result<Divan, String> {
+    let mut d = apply_builder(Divan::default(), &cfg.options);
     match cfg.ignored {
         1 => d = d.run_only_ignored(),
         2 => d = d.run_ignored(),
@@ -716,6 +720,9 @@ pub fn build_divan(cfg: &RunCfg) -> Result<Divan, String> {
         "test" => Some(VAction::Test),
         "list" => Some(VAction::List),
         "list-terse" => Some(VAction::ListTerse),
+        // `Divan::run_benches()` on a runner configured for another action.
+        "bench-api" => Some(VAction::Test),
+        // "test-api" / "list-api": the configured action stays the default (bench).
         _ => None,
     };
     runner::configure(d, &RunnerCfg { action, timer_tsc: true, sorting_attr: cfg.sort, reverse_sort: cfg.reverse, filters: hook_filters })
@@ -732,6 +739,8 @@ pub fn run_in_process(spec: &TwinSpec, cfg: &RunCfg) -> Result<TwinRun, String> 
     install_clock();
     let (result, stdout) = capture::stdout(|| match cfg.action.as_str() {
         "list-api" => divan.list_benches(),
+        "bench-api" => divan.run_benches(),
+        "test-api" => divan.test_benches(),
         _ => divan.main(),
     });
     uninstall_clock();
@@ -756,7 +765,13 @@ pub fn child_main(path: &str) {
     let spec: TwinSpec = serde_json::from_slice(&std::fs::read(path).expect("read spec")).expect("parse spec");
     register(&spec).expect("register");
     install_clock();
-    let result = catch(divan::main);
+    // `VCHECK_TWIN_BUILDER`: options set through builder calls *before*
+    // `config_with_args()` reads the command line and the environment.
+    let builder: Option<OptSpec> = std::env::var("VCHECK_TWIN_BUILDER").ok().and_then(|t| serde_json::from_str(&t).ok());
+    let result = match builder {
+        Some(o) => catch(move || apply_builder(Divan::default(), &o).config_with_args().main()),
+        None => catch(divan::main),
+    };
     let report = ChildReport { invocations: std::mem::take(&mut *INVOCATIONS.lock().unwrap()), arg_evals: ARG_EVALS.lock().unwrap().clone() };
     if let Ok(out) = std::env::var("VCHECK_TWIN_LOG") {
         std::fs::write(out, serde_json::to_vec(&report).unwrap()).expect("write child report");
